@@ -157,8 +157,12 @@ deriving DecidableEq, Repr
 def getData (fs : Spec) : PyVal := .arr fs.shape fs.data
 def getMask (fs : Spec) : PyVal := .marr fs.mask
 def getFolded (fs : Spec) : PyVal := .bool fs.folded
-def getPopIds (fs : Spec) : PyVal := match fs.popIds with | Option.none => .none | some l => .strs l
-def getExtrapX (fs : Spec) : PyVal := match fs.extrapX with | Option.none => .none | some t => .num t
+/-- `None` or a list of labels -/
+def labelsVal (p : Option (List Str)) : PyVal := match p with | Option.none => .none | some l => .strs l
+/-- `None` or a number -/
+def numVal (x : Option Str) : PyVal := match x with | Option.none => .none | some t => .num t
+def getPopIds (fs : Spec) : PyVal := labelsVal fs.popIds
+def getExtrapX (fs : Spec) : PyVal := numVal fs.extrapX
 
 /-- `Spectrum.mask_corners`: `mask.flat[0] = mask.flat[-1] = True` -/
 def maskCorners (m : List Bool) : List Bool := (m.set 0 true).set (m.length - 1) true
@@ -256,7 +260,7 @@ def fromFile (mc : Bool) (text : Str) : Option (Spec × List Str) :=
       | Option.none => Option.none
       | some mask =>
         match construct (.arr shape data) mask (.bool mc) (.bool folded) (.bool true)
-                (match labels with | Option.none => .none | some l => .strs l) .none with
+                (labelsVal labels) .none with
         | Option.none => Option.none
         | some fs => some (fs, comments)
 
